@@ -105,6 +105,12 @@ func c14ServiceHistory(c *core.Ctx, p idxParams, h int) bool {
 				v, norm := c14NormQuery(q)
 				return v, norm, nil
 			}})
+		// (E) query resource whose callbacks run in parallel
+		s.Handle("psearch", res.Collection, res.Parallel(true), store.QueryHandler{QueryStore: env.qs, Transformer: trans,
+			QueryRequestHandler: func(rname string, pp map[string]string, q url.Values) (url.Values, string, error) {
+				v, norm := c14NormQuery(q)
+				return v, norm, nil
+			}})
 		// (D) query resource with path param
 		s.Handle("searchidx.$idx", res.Collection, store.QueryHandler{QueryStore: env.qs, Transformer: trans,
 			QueryRequestHandler: func(rname string, pp map[string]string, q url.Values) (url.Values, string, error) {
@@ -161,7 +167,8 @@ func c14ServiceHistory(c *core.Ctx, p idxParams, h int) bool {
 
 	rids := []string{"svc.all", "svc.bykey.a", "svc.bykey.ab", "svc.bykey.b",
 		"svc.search?prefix=a&limit=3", "svc.search?prefix=&rev=1", "svc.search?prefix=ab&limit=2&offset=1", "svc.search?prefix=&filter=evenlen",
-		"svc.searchidx.k?prefix=a", "svc.searchidx.x2?prefix="}
+		"svc.searchidx.k?prefix=a", "svc.searchidx.x2?prefix=",
+		"svc.psearch?prefix=a&limit=2", "svc.psearch?prefix=&rev=1", "svc.psearch?prefix=b", "svc.psearch?prefix=&limit=1&offset=1", "svc.psearch?prefix=ab", "svc.psearch?prefix=&filter=hasa"}
 	var cache []*gwEntry
 	for _, rid := range rids {
 		res0, q, ok := get(rid)
@@ -219,19 +226,37 @@ func c14ServiceHistory(c *core.Ctx, p idxParams, h int) bool {
 					Subject string `json:"subject"`
 				}
 				json.Unmarshal(msg.Data, &qe)
+				// the gateway sends the query requests for all queries it holds on the resource
+				// at once; they are answered one by one or, on a Parallel resource, concurrently
+				type pendingQ struct {
+					inbox string
+					qd    chan struct{}
+				}
+				pend := map[string]pendingQ{}
+				start := rg.C.Len()
 				for _, e := range cache {
 					if e.rname != rname || e.query == "" {
 						continue
 					}
-					inbox := newInbox()
-					qd := make(chan struct{})
-					qdoneMap.Store(inbox, qd)
+					pq := pendingQ{newInbox(), make(chan struct{})}
+					qdoneMap.Store(pq.inbox, pq.qd)
 					pl, _ := json.Marshal(map[string]string{"query": e.query})
-					start := rg.C.Len()
-					if rg.C.Deliver(qe.Subject, inbox, pl) != 1 || !waitCh(qd, 10*time.Second) {
+					if rg.C.Deliver(qe.Subject, pq.inbox, pl) != 1 {
+						c.Inconclusive("query request not delivered")
+						return false
+					}
+					pend[e.rid] = pq
+				}
+				for _, e := range cache {
+					pq, ok := pend[e.rid]
+					if !ok {
+						continue
+					}
+					if !waitCh(pq.qd, 10*time.Second) {
 						c.Inconclusive("query request not processed")
 						return false
 					}
+					inbox := pq.inbox
 					resp, _ := replies(rg.C.Since(start), inbox)
 					if len(resp) != 1 {
 						c.Violation("C14/query-request-response-count", fmt.Sprintf("query request got %d responses", len(resp)), nil)
